@@ -34,7 +34,11 @@ def plan(tier, seed):
 
 def post(results, tier, seed):
     for r in results:
-        fs = [f for f in r.get("findings", []) if f.get("kind") in SAFETY or str(f.get("cls", "")).startswith(("C10:", "lemma:buffer"))]
+        fs = [f for f in r.get("findings", []) if f.get("kind") in SAFETY or
+              str(f.get("cls", "")).startswith(("C10:", "lemma:buffer")) or
+              # the lifted BYTE_ARRAY codec: a pointer dereference outside its region surfaces as CapacityViolation
+              (str(f.get("cls", "")).startswith(("C12:h_unpack", "C12:h_pack")) and
+               "CapacityViolation" in str(f.get("detail", "")))]
         if r["status"] == "violation" and not fs:
             r["status"] = "holds"
         r["findings"] = fs
